@@ -294,14 +294,19 @@ func TestVerifRtpDump(t *testing.T) {
 		end := "none"
 		if open == "ok" {
 			end = "more"
+			// the caller keeps every packet it was given and looks at them when the file is read:
+			// a packet must not change because a later one was read
+			kept := []Packet{}
 			for n := 0; n < len(c.Vec.Pkts)+2; n++ {
 				p, e := rd.Next()
-				o := vdOutcome(p, e)
 				if e != nil {
-					end = o["k"].(string) //nolint:forcetypeassert
+					end = vdOutcome(p, e)["k"].(string) //nolint:forcetypeassert
 					break
 				}
-				pkts = append(pkts, o)
+				kept = append(kept, p)
+			}
+			for _, p := range kept {
+				pkts = append(pkts, vdOutcome(p, nil))
 			}
 		}
 		tr.Emit(vkM{"ev": "read", "t": c.ID, "sig": fmt.Sprintf("ReadBack(n=%d)", len(c.Vec.Pkts)),
